@@ -168,6 +168,21 @@ fn random_table_history(rng: &mut Rng, keys: &[u32], len: usize, clear_every: u6
     ops
 }
 
+/// Long runs of clears (the honest 2^32 cycle) take seconds inside ONE case: keep check.py's hang
+/// watchdog informed.  It watches `<out>.progress` for changes; the first two tokens stay as lib.rs wrote them.
+fn progress_tick(n: u64) {
+    let args: Vec<String> = std::env::args().collect();
+    if let Some(out) = args.iter().position(|a| a == "--out").and_then(|i| args.get(i + 1)) {
+        let p = format!("{out}.progress");
+        if let Ok(cur) = std::fs::read_to_string(&p) {
+            let mut t = cur.split_whitespace();
+            if let (Some(a), Some(b)) = (t.next(), t.next()) {
+                let _ = std::fs::write(&p, format!("{a} {b} tick{n}\n"));
+            }
+        }
+    }
+}
+
 fn exec_table<H: FastHash + Default>(ops: &[TOp], uni: &[u32], obs: &mut Vec<String>) {
     let mut t: MediumSizeHashTable<u32, i64, H> = MediumSizeHashTable::new();
     let hasher = H::default();
@@ -183,8 +198,11 @@ fn exec_table<H: FastHash + Default>(ops: &[TOp], uni: &[u32], obs: &mut Vec<Str
             TOp::Clear => t.clear(),
             TOp::SetGen(g) => t.verif_set_generation(*g),
             TOp::Clears(n) => {
-                for _ in 0..*n {
-                    t.clear()
+                for i in 0..*n {
+                    t.clear();
+                    if i & ((1 << 27) - 1) == 0 && i > 0 {
+                        progress_tick(i);
+                    }
                 }
             }
         }
@@ -484,7 +502,7 @@ fn generate(rng: &mut Rng, tier: Tier, cases: &mut Vec<Case>) {
         }
     }
     // ---- random histories over colliding key sets
-    let n_coll = if thorough { 6000 } else { 500 };
+    let n_coll = if thorough { 30000 } else { 500 };
     for i in 0..n_coll {
         let kind = if i % 2 == 0 { "tab" } else { "fib" };
         let start = match rng.below(3) {
@@ -504,7 +522,7 @@ fn generate(rng: &mut Rng, tier: Tier, cases: &mut Vec<Case>) {
         cases.push(table_case(if start + slots + per > 65536 { "collide-wrap" } else { "collide" }, kind, &ops, &[0, absent]));
     }
     // ---- generation fast-forward, then REAL clears across u32::MAX and 0
-    let n_gen = if thorough { 2000 } else { 250 };
+    let n_gen = if thorough { 10000 } else { 250 };
     for i in 0..n_gen {
         let kind = if i % 2 == 0 { "tab" } else { "fib" };
         let g = GEN_MAX - rng.below(5) as u32;
@@ -516,7 +534,7 @@ fn generate(rng: &mut Rng, tier: Tier, cases: &mut Vec<Case>) {
         cases.push(table_case("generation-wrap", kind, &ops, &[0, *rng.pick(bucket_of(kind, start))]));
     }
     // ---- plain random keys (few collisions), long
-    let n_rand = if thorough { 1500 } else { 120 };
+    let n_rand = if thorough { 5000 } else { 120 };
     for i in 0..n_rand {
         let kind = if i % 2 == 0 { "tab" } else { "fib" };
         let keys: Vec<u32> = (0..(2 + rng.below(12))).map(|_| if rng.chance(1, 2) { rng.below(64) as u32 } else { rng.next() as u32 }).collect();
@@ -546,21 +564,21 @@ fn generate(rng: &mut Rng, tier: Tier, cases: &mut Vec<Case>) {
         }
     }
     // ---- tiny table
-    let n_tiny = if thorough { 6000 } else { 500 };
+    let n_tiny = if thorough { 20000 } else { 500 };
     for _ in 0..n_tiny {
         let nkeys = 1 + rng.below(8);
         let len = 4 + rng.below(60) as usize;
         cases.push(tiny_case(rng, nkeys, len));
     }
     // ---- Bloom filter
-    let n_bloom = if thorough { 6000 } else { 500 };
+    let n_bloom = if thorough { 20000 } else { 500 };
     for i in 0..n_bloom {
         if let Some(c) = bloom_case(rng, i % 5 == 0) {
             cases.push(c);
         }
     }
     // ---- count-min sketch
-    let n_cms = if thorough { 5000 } else { 400 };
+    let n_cms = if thorough { 15000 } else { 400 };
     for _ in 0..n_cms {
         cases.push(cms_case(rng));
     }
